@@ -703,3 +703,110 @@ func c12replacerAdd(c *core.Check) {
 		"every path through Add stores under the marker it was given",
 		"Add can return without storing the patch: a patch for a marker that is not in the pre-filled table (the table is filled from a regular expression that only knows names over [$.0-9a-zA-Z_]) is dropped and the marker stays in the file, although Feed accepted the patch")
 }
+
+// c12patchFollowsMove: a named patch belongs to the file of that name *in the same submission*. When that file was stored
+// under a fresh name (or dropped as a duplicate) earlier in the same Feed call, filing the patch under the submitted name
+// attaches it to the older, unrelated file — the two files merge, which the property excludes. Rule: Feed keeps a record,
+// keyed by the submitted name, that the rename branch (the block that assigns the item's Name) writes, and the branch that
+// files a named patch (fm.patch[K] = append(…) with K not the carried "last" variable) reads that record first.
+func c12patchFollowsMove(c *core.Check) {
+	fd := c.Prog.FuncDecl("generator", "FileManager.Feed")
+	key := "generator.(FileManager).Feed/named-patch-after-rename"
+	if fd == nil {
+		c.Unknown("anchor", "generator.(FileManager).Feed", "", "missing")
+		return
+	}
+	info := c.Prog.Pkg("generator").TypesInfo
+	recv := recvNameOf(fd, "fm")
+	isLocalMap := func(e ast.Expr) (types.Object, bool) {
+		id, ok := ast.Unparen(e).(*ast.Ident)
+		if !ok {
+			return nil, false
+		}
+		o := info.Uses[id]
+		if o == nil {
+			o = info.Defs[id]
+		}
+		if o == nil {
+			return nil, false
+		}
+		_, isMap := o.Type().Underlying().(*types.Map)
+		return o, isMap && o.Parent() != nil && o.Parent() != c.Prog.Pkg("generator").Types.Scope()
+	}
+	// blocks
+	var renameBlock, patchBlock *ast.BlockStmt
+	ast.Inspect(fd.Body, func(m ast.Node) bool {
+		b, ok := m.(*ast.BlockStmt)
+		if !ok {
+			return true
+		}
+		for _, st := range b.List {
+			as, ok := st.(*ast.AssignStmt)
+			if !ok || len(as.Lhs) != 1 || len(as.Rhs) != 1 {
+				continue
+			}
+			if sel, ok := as.Lhs[0].(*ast.SelectorExpr); ok && sel.Sel.Name == "Name" {
+				if tv, ok := info.Types[sel.X]; ok && strings.HasSuffix(tv.Type.String(), "plugin.Generated") {
+					renameBlock = b
+				}
+			}
+			if ix, ok := as.Lhs[0].(*ast.IndexExpr); ok && rules.ExprString(ix.X) == recv+".patch" {
+				// the named-patch branch: the key is a name taken from the item (not the variable carried across iterations)
+				if o, isID := ast.Unparen(ix.Index).(*ast.Ident); isID {
+					if obj := info.Uses[o]; obj != nil && obj.Pos() > b.Pos()-1 || obj != nil && declaredInLoopBody(fd, obj) {
+						patchBlock = b
+					}
+				}
+			}
+		}
+		return true
+	})
+	if renameBlock == nil || patchBlock == nil {
+		c.Unknown("named-patch-follows-its-file", key, c.Prog.Rel(fd.Pos()), "the rename branch or the named-patch branch of Feed was not found")
+		return
+	}
+	written := map[types.Object]bool{}
+	ast.Inspect(renameBlock, func(m ast.Node) bool {
+		if as, ok := m.(*ast.AssignStmt); ok {
+			for _, l := range as.Lhs {
+				if ix, ok := l.(*ast.IndexExpr); ok {
+					if o, ok := isLocalMap(ix.X); ok {
+						written[o] = true
+					}
+				}
+			}
+		}
+		return true
+	})
+	read := false
+	ast.Inspect(patchBlock, func(m ast.Node) bool {
+		if ix, ok := m.(*ast.IndexExpr); ok {
+			if o, ok := isLocalMap(ix.X); ok && written[o] {
+				read = true
+			}
+		}
+		return true
+	})
+	c.Decide(read, "named-patch-follows-its-file", key, c.Prog.Rel(patchBlock.Pos()),
+		"the named-patch branch consults the record of this call's renames before it files the patch",
+		"a named patch is filed under the submitted name without looking whether the file of that name was renamed earlier in the same call: Feed([a=\"y…\" (renamed a_1), {Name:a, InsertionPoint:p}]) inserts the patch into the older file a, so the two files' contents mix")
+}
+
+// declaredInLoopBody reports whether obj is declared inside the body of a for/range statement of fd.
+func declaredInLoopBody(fd *ast.FuncDecl, obj types.Object) bool {
+	in := false
+	ast.Inspect(fd.Body, func(m ast.Node) bool {
+		switch x := m.(type) {
+		case *ast.ForStmt:
+			if x.Body.Pos() <= obj.Pos() && obj.Pos() < x.Body.End() {
+				in = true
+			}
+		case *ast.RangeStmt:
+			if x.Body.Pos() <= obj.Pos() && obj.Pos() < x.Body.End() {
+				in = true
+			}
+		}
+		return true
+	})
+	return in
+}
